@@ -186,6 +186,11 @@ pub struct OpenClose {
     pub skew: Option<(u8, u8, u8)>,
     /// Size of the fresh position in percent of the reserving pool side (0 = use `collateral` as is).
     pub size_pct: u8,
+    /// Frictionless variant: no order fees, no position price impact, no price spreads and a synthetic
+    /// index token whose unit price is `index_unit_ratio` times the generated one (few-decimals index):
+    /// nothing but rounding separates the value returned from the value deposited, so a rounding step in
+    /// the trader's favour is not masked by fees.
+    pub frictionless: Option<u32>,
 }
 
 fn open_close_case() -> impl Strategy<Value = OpenClose> {
@@ -196,8 +201,9 @@ fn open_close_case() -> impl Strategy<Value = OpenClose> {
         1u128..=80,
         prop_oneof![1 => Just(None), 2 => (0u8..NUM_POSITIONS as u8, 1u8..=40, 1u8..=30).prop_map(Some)],
         prop_oneof![1 => Just(0u8), 2 => 1u8..=30],
+        prop_oneof![5 => Just(None), 1 => (1u32..=100_000).prop_map(Some)],
     )
-        .prop_map(|(history, pos, collateral, leverage, skew, size_pct)| OpenClose { history, pos, collateral, leverage, skew, size_pct })
+        .prop_map(|(history, pos, collateral, leverage, skew, size_pct, frictionless)| OpenClose { history, pos, collateral, leverage, skew, size_pct, frictionless })
 }
 
 /// Collateral amount such that collateral value x leverage = `pct` percent of the pool side that reserves
@@ -210,6 +216,22 @@ fn collateral_for_share(w: &World, is_long: bool, coll_long: bool, pct: u128, le
 }
 
 fn check_open_close(c: &OpenClose, rec: &mut Rec, kf_open: bool) -> Result<(), String> {
+    let frictionless_history;
+    let c = if let Some(ratio) = c.frictionless {
+        let mut h = c.history.clone();
+        h.cfg.order_fee = (0, 0, 0);
+        h.cfg.position_impact = (h.cfg.position_impact.0, 0, 0);
+        let mid = |p: (u128, u128)| (p.0, p.0);
+        let index_mid = h.prices.index.0.saturating_mul(ratio as u128).min(10u128.pow(19));
+        h.prices = PricesSpec { index: (index_mid, index_mid), long: mid(h.prices.long), short: mid(h.prices.short) };
+        // the history itself must not move prices apart again
+        h.ops.retain(|op| !matches!(op, Op::MovePrice { .. }));
+        rec.class("frictionless");
+        frictionless_history = OpenClose { history: h, ..c.clone() };
+        &frictionless_history
+    } else {
+        c
+    };
     let mut w = World::start(&c.history);
     for op in &c.history.ops {
         let _ = w.apply(op);
@@ -346,7 +368,7 @@ fn check_open_close(c: &OpenClose, rec: &mut Rec, kf_open: bool) -> Result<(), S
 }
 
 pub fn run_c10(ctx: &mut Ctx) {
-    ctx.rule("cases = market state reached by a generated position-heavy history (other positions open, funded or empty position impact pool, fee/impact/cap settings incl. max positive impact factor above the max negative one), optionally a large skewing position opened by somebody else (1..40 % of the reserving pool side), then a fresh position (side, collateral token, size = collateral value x leverage 1..80, either a generated amount or 1..30 % of the reserving pool side; a refused open is retried smaller / with lower leverage) opened and fully closed at the same prices with no elapsed time and no swap of the output; oracle = value received (output, secondary output, claimable funding, claimable collateral for user and holding; collateral-token amounts at p_collateral.min, other-token amounts at that token's max price) <= collateral deposited at p_collateral.min + 2 base units per token; non-trivial = non-zero price impact on a leg");
+    ctx.rule("cases = market state reached by a generated position-heavy history (other positions open, funded or empty position impact pool, fee/impact/cap settings incl. max positive impact factor above the max negative one), optionally a large skewing position opened by somebody else (1..40 % of the reserving pool side), then a fresh position (side, collateral token, size = collateral value x leverage 1..80, either a generated amount or 1..30 % of the reserving pool side; a refused open is retried smaller / with lower leverage; one case in six is frictionless: zero order fees, zero position impact, no spreads and an index unit price up to 1e5 times larger, so that only rounding separates the two values) opened and fully closed at the same prices with no elapsed time and no swap of the output; oracle = value received (output, secondary output, claimable funding, claimable collateral for user and holding; collateral-token amounts at p_collateral.min, other-token amounts at that token's max price) <= collateral deposited at p_collateral.min + 2 base units per token; non-trivial = non-zero price impact on a leg");
     ctx.assume("decrease swap types other than NoSwap are not used here: a swap of the output inside the close can earn positive swap impact, which is a different mechanism (C05)");
     let kf = ctx.finding_open("KF-C10-1");
     {
@@ -362,7 +384,7 @@ pub fn run_c10(ctx: &mut Ctx) {
             seed_liquidity: (2_320_195_316_925, 483_008_735_800),
             ops: vec![Op::Increase { pos: 3, collateral: 168_130_595, size_usd: 40 }],
         };
-        let w = OpenClose { history: h, pos: 3, collateral: 1_253_819_709, leverage: 37, skew: None, size_pct: 0 };
+        let w = OpenClose { history: h, pos: 3, collateral: 1_253_819_709, leverage: 37, skew: None, size_pct: 0, frictionless: None };
         let mut rec = Rec::default();
         let r = check_open_close(&w, &mut rec, false);
         ctx.known_witness("KF-C10-1", r.is_err(), "with a max positive position impact factor above the max negative one (2.4e-10 vs 0, zero order fees), opening a position that rebalances the open interest and closing it at once returns more collateral value (output + claimable collateral) than deposited: the opening leg's positive impact is kept, the closing leg's negative impact is capped and credited back");
